@@ -214,6 +214,19 @@ package redisemu
 //@ ensures [C07] live: exists ==> !(now > sk.expiresAt)
 //@ ensures [C10] absent.mono: old(lookupAbsent) ==> lookupAbsent
 
+// C05: the operands after an absent key are still type-checked (SINTER / SINTERSTORE): a pure scan with lookups
+//@ func dataStoreCommand.anyWrongTypeSetUnlocked
+//@ prop C08 C05 C06
+//@ guards on
+//@ safetyprop C13
+//@ requires dscOK(dsc)
+//@ requires [C08,C16] locked: held
+//@ modifies storeKey.lastAccess ghost.lookupAbsent ghost.now
+//@ loop 1 invariant held && (old(lookupAbsent) ==> lookupAbsent)
+//@ ensures [C10] absent.mono: old(lookupAbsent) ==> lookupAbsent
+//@ ensures [C05] none.for.none: len(keyNames) == 0 ==> !result
+//@ ensures stillheld: held
+
 //@ func dataStoreCommand.setDirty
 //@ prop C08 C19
 //@ guards on
